@@ -675,10 +675,11 @@ func (w *World) snapshot() []ISnap {
 				}
 			}
 		}
+		// (the acknowledged write with the highest revision: operations are listed in the
+		// order of their issue, which is not the order in which the store applied them)
 		for k := len(w.ops) - 1; k >= 0; k-- {
-			if o := w.ops[k]; o.Inst == id && o.Wrote != nil && !o.Wrote.Del && o.Answered && o.resErr == nil {
+			if o := w.ops[k]; o.Inst == id && o.Wrote != nil && !o.Wrote.Del && o.Answered && o.resErr == nil && o.Wrote.Rev > s.OwnRev {
 				s.OwnRev = o.Wrote.Rev
-				break
 			}
 		}
 		snaps = append(snaps, s)
